@@ -225,6 +225,17 @@ func undefinedName(t tok, n int) string {
 	case ':':
 		return fmt.Sprintf("verif.undef.label%d", n)
 	}
+	// the undefined name comes in several styles: plain, inside LLVM's intrinsic name space (a library
+	// that declares unknown intrinsics by itself would accept it), shaped like an overloaded intrinsic,
+	// and quoted with a space
+	switch n % 4 {
+	case 1:
+		return fmt.Sprintf("%cllvm.verif.undef%d", t.sigil, n)
+	case 2:
+		return fmt.Sprintf("%cllvm.memcpy.p0i8.p0i8.i%d", t.sigil, 3000+n)
+	case 3:
+		return fmt.Sprintf("%c\"verif undef %d\"", t.sigil, n)
+	}
 	return fmt.Sprintf("%cverif.undef%d", t.sigil, n)
 }
 
